@@ -574,7 +574,26 @@ class _Inliner(object):
                 return q, "class"
         return None, None
 
+    def _drop_value_referenced(self):
+        """A helper that is also used as a value (registered as a callback, stored, passed on) stays a function anyway:
+        inlining only its direct calls would duplicate it, so such helpers are left alone entirely."""
+        callee_nodes = set()
+        for n in ast.walk(self.tree):
+            if isinstance(n, ast.Call):
+                callee_nodes.add(id(n.func))
+        for q, (fn, owner, kind) in list(self.new_defs.items()):
+            name = fn.name
+            for n in ast.walk(self.tree):
+                if id(n) in callee_nodes:
+                    continue
+                if (isinstance(n, ast.Name) and n.id == name and isinstance(n.ctx, ast.Load)) or (
+                        isinstance(n, ast.Attribute) and n.attr == name and isinstance(n.ctx, ast.Load)):
+                    del self.new_defs[q]
+                    self.log.append("left alone %s (also used as a value)" % q)
+                    break
+
     def run(self):
+        self._drop_value_referenced()
         for _ in range(6):
             self.changed = False
             self._blocks(self.tree, [])
